@@ -42,6 +42,15 @@ var policyTexts = []string{
 	`forbid(principal, action in [Action::"edit"], resource) unless { context has a };`,
 	`permit(principal, action, resource == G::"g1") when { resource.a == "group" && context.a == 2 };`,
 	`forbid(principal, action, resource) when { context.r.b == context.a && context.a == 2 };`,
+	// if-then-else, ||, has, literals built from request parts: every partial-evaluation rule has a policy
+	`permit(principal, action, resource) when { (if context.a == 1 then context.s else [3]).contains(1) };`,
+	`permit(principal, action, resource) when { (if principal == U::"alice" then context.g else [resource]).contains(principal) };`,
+	`forbid(principal, action, resource) when { (if context.a == 2 then context.r else {b: 0}).b == 1 };`,
+	`permit(principal, action, resource) when { context.a == 2 || context.r.b == 2 };`,
+	`permit(principal, action, resource) when { context has a && context.a == 2 };`,
+	`permit(principal, action, resource) when { [context.a, 1].contains(2) || {k: context.a}.k == 2 };`,
+	`forbid(principal, action, resource) when { context.s.containsAll([context.a]) && !context.s.containsAny([3, context.r.b]) };`,
+	`permit(principal is U, action, resource) when { principal in [resource, G::"g2"] } unless { context.a == 1 } unless { context.r.b == 2 };`,
 }
 
 var policies []*cedar.Policy
